@@ -4,7 +4,7 @@ from runner import Stream
 import vlib, gen_manifest, fuzzgen, render
 from parsers_common import model_lines, pkgs_of, norm_py
 
-PROP_MODULES = ["Vlsp.Props.C04", "Vlsp.Props.C04Layout", "Vlsp.Props.C04LayoutToml", "Vlsp.Props.C04LayoutPy", "Vlsp.Props.C04Walks"]
+PROP_MODULES = ["Vlsp.Props.C04", "Vlsp.Props.C04Layout", "Vlsp.Props.C04LayoutToml", "Vlsp.Props.C04LayoutPy", "Vlsp.Props.C04Walks", "Vlsp.Props.C04Reading"]
 RULE = ("(a) the seven Parser::parse implementations vs the Lean parser models run on the SAME syntax tree (the tree tree-sitter really "
         "produces, dumped by the harness; go.mod: raw text; PEP 508 answers of the real library as an input): rendered manifests under "
         "every layout choice plus grammar-aware mutations; (b) the property itself on the implementation: manifests rendered from an "
@@ -156,7 +156,7 @@ def streams(ctx):
         # the premise of the layout theorems (c04_npm_layout_invariant, c04_deno_layout_invariant, c04_cargo_layout_invariant_norm) on REAL trees: a manifest and
         # its re-rendering under another layout (escaped spellings included) read as the same abstract JSON
         # (the renderer's "nonascii" option edits the manifest's own name VALUE: pairs that differ in it are left out)
-        pairs = [i for i in range(0, len(meta) - 1, 2) if meta[i][0] in ("npm", "jsr", "crates", "pypi") and meta[i][2]["nonascii"] == meta[i + 1][2]["nonascii"]
+        pairs = [i for i in range(0, len(meta) - 1, 2) if meta[i][0] in ("npm", "jsr", "crates", "pypi", "gha", "pnpm") and meta[i][2]["nonascii"] == meta[i + 1][2]["nonascii"]
                  and bool(meta[i][2].get("qkey")) == bool(meta[i + 1][2].get("qkey"))]      # (a quoted key reads as `other`: finding F-C04-14)
         cap, per = (60 if quick else 1500), {}
         pairs = [i for i in pairs if per.setdefault(meta[i][0], []).append(i) or len(per[meta[i][0]]) <= cap]      # per format
